@@ -99,14 +99,15 @@ Check C10_remove_refines :
   forall (A : Type) (eqa : A -> A -> bool) (l : list A) (x : A) (at_ : Z),
     remove_impl eqa l x = remove_spec eqa l x /\
     remove_at_impl l at_ = C08.Model.remove_at_spec l at_.
-Check C10_calls_refine_partial :
-  forall c, simple_call c = true -> known_sum_negzero c = false -> impl_call c = spec_call c.
-Check C10_sum_refuted :
-  exists c, known_sum_negzero c = true /\ judge c = JSpec /\ impl_call c <> spec_call c.
-Check C10_unstable_sort_observable :
-  exists l l' : list val,
-    Permutation l l' /\ StronglySorted (fun a b => leb_val a b = true) l' /\
-    sort_spec None l = Some l /\ l' <> l.
+Check C10_compare_extends_to_total_order :
+  cmp_laws ctot /\ forall a b c, cmp_val a b = Some c -> ctot a b = c.
+Check C10_sort_refines :
+  forall k l, sort_determinate k l = true ->
+    sort_impl k l = sort_spec k l /\ set_impl k l = set_spec k l.
+Check C10_calls_refine :
+  forall c, judge c = JSpec -> impl_call c = spec_call c.
+Check C10_simple_calls_refine :
+  forall c, simple_call c = true -> impl_call c = spec_call c.
 Check C10_fold_laws :
   forall f l1 l2 acc,
     foldl_m f (l1 ++ l2) acc = (a <- foldl_m f l1 acc ;; foldl_m f l2 a) /\
@@ -130,16 +131,14 @@ Check eq_refl : remove_spec Z.eqb [1; 2; 1; 2]%Z 2%Z = [1; 1; 2]%Z.
 Check eq_refl : uniq_spec Z.eqb [(10, 1); (11, 1); (12, 2); (13, 1)]%Z = [10; 12; 13]%Z.
 Check eq_refl : simple_call (CSort VNull None) = false.
 Check eq_refl : simple_call (CSum VNull) = true.
-Check eq_refl : known_sum_negzero (CSum (VArr [VNegZero])) = true.
-Check eq_refl : known_sum_negzero (CSum (VArr [VNegZero; VNum 0])) = false.
-Check eq_refl : known_sum_negzero (CAvg (VArr []) None) = false.
 Check eq_refl : spec_call (CSort (VArr [VNum 2; VNegZero; VNum 0; VStr []]) None) = None.
 Check eq_refl : spec_call (CSort (VArr [VArr [VNum 1; VNum 2]; VArr [VNum 1]; VArr [VNum 0]]) (Some FFirst))
                 = Some (OVal (VArr [VArr [VNum 0]; VArr [VNum 1; VNum 2]; VArr [VNum 1]])).
 Check eq_refl : spec_call (CSetUnion (VArr [VNum 1; VNum 3]) (VArr [VNum 2; VNum 3]) None)
                 = Some (OVal (VArr [VNum 1; VNum 2; VNum 3])).
 Check eq_refl : spec_call (CSum (VArr [])) = Some (OVal (VNum 0)).
-Check eq_refl : impl_call (CSum (VArr [])) = Some (OVal VNegZero).
+Check eq_refl : impl_call (CSum (VArr [])) = Some (OVal (VNum 0)).
+Check eq_refl : impl_call (CAvg (VArr [VNegZero]) None) = Some (OFrac 0 1).
 Check eq_refl : spec_call (CMinArray (VArr [VStr [98%N]; VStr [97%N]; VStr [97%N; 97%N]]) (Some FLen) None)
                 = Some (OVal (VStr [98%N])).
 Check eq_refl : judge (CSetUnion (VArr [VNum 3; VNum 1]) (VArr []) None) = JModel.
@@ -148,3 +147,8 @@ Check eq_refl : keyd (Some FLen) (VStr [97%N]) = VNum 1.
 Check eq_refl : keyd (Some FLen) VNull = VNull.
 Check eq_refl : cz (VNum 1) VNegZero = Gt.
 Check eq_refl : num_keys None [VNum 1] = Forall (fun x => exists v, keyfn None x = Some v /\ is_num v = true) [VNum 1].
+Check eq_refl : ctot (VArr [VNum 1; VNull]) (VArr [VNum 1; VBool true]) = Lt.
+Check eq_refl : ctot VNegZero (VNum 0) = Eq.
+Check eq_refl : ctot (VStr [98%N]) (VArr []) = Lt.
+Check eq_refl : judge (CSort (VArr [VArr [VNum 1; VNull]; VArr [VNum 1; VNull; VNum 0]; VArr [VNum 2]]) None) = JSkip.
+Check eq_refl : sort_determinate None [VArr [VNum 1; VNull]; VArr [VNum 0]] = true.
